@@ -327,20 +327,21 @@ dround_ddur(struct dt_d_s d, struct dt_ddur_s dur, bool nextp)
 		switch (d.typ) {
 			unsigned int mdays;
 		case DT_YMD:
-			if (forw && nextp && d.ymd.d < tgt &&
-			    d.ymd.d == __get_mdays(d.ymd.y, d.ymd.m)) {
-				/* on the ultimo that stands in for TGT already */
-				goto next_month;
-			} else if ((forw && d.ymd.d < tgt) ||
-			    (!forw && d.ymd.d > tgt)) {
+			/* in this month the ultimo stands in for a TGT
+			 * the month does not have */
+			mdays = __get_mdays(d.ymd.y, d.ymd.m);
+			if (mdays > tgt) {
+				mdays = tgt;
+			}
+			if ((forw && d.ymd.d < mdays) ||
+			    (!forw && d.ymd.d > mdays)) {
 				/* no month or year adjustment */
 				;
-			} else if (d.ymd.d == tgt && !nextp) {
+			} else if (d.ymd.d == mdays && !nextp) {
 				/* we're ON the date already and no
 				 * next/prev date is requested */
 				;
 			} else if (forw) {
-			next_month:
 				if (LIKELY(d.ymd.m < GREG_MONTHS_P_YEAR)) {
 					d.ymd.m++;
 				} else {
@@ -382,11 +383,17 @@ dround_ddur(struct dt_d_s d, struct dt_ddur_s dur, bool nextp)
 		switch (d.typ) {
 			unsigned int bdays;
 		case DT_BIZDA:
-			if ((forw && d.bizda.bd < tgt) ||
-			    (!forw && d.bizda.bd > tgt)) {
+			/* the last business day stands in for a TGT
+			 * the month does not have */
+			bdays = __get_bdays(d.bizda.y, d.bizda.m);
+			if (bdays > tgt) {
+				bdays = tgt;
+			}
+			if ((forw && d.bizda.bd < bdays) ||
+			    (!forw && d.bizda.bd > bdays)) {
 				/* no month or year adjustment */
 				;
-			} else if (d.bizda.bd == tgt && !nextp) {
+			} else if (d.bizda.bd == bdays && !nextp) {
 				/* we're ON the date already and no
 				 * next/prev date is requested */
 				;
@@ -514,20 +521,21 @@ Warning: rounding to n-th business day not supported for input value");
 		switch (d.typ) {
 			unsigned int nw;
 		case DT_YWD:
-			if (forw && nextp && d.ywd.c < tgt &&
-			    d.ywd.c == __get_isowk(d.ywd.y)) {
-				/* in the last week that stands in for TGT already */
-				goto next_year;
-			} else if ((forw && d.ywd.c < tgt) ||
-			    (!forw && d.ywd.c > tgt)) {
+			/* the last week stands in for a TGT
+			 * the year does not have */
+			nw = __get_isowk(d.ywd.y);
+			if (nw > tgt) {
+				nw = tgt;
+			}
+			if ((forw && d.ywd.c < nw) ||
+			    (!forw && d.ywd.c > nw)) {
 				/* no year adjustment */
 				;
-			} else if (d.ywd.c == tgt && !nextp) {
+			} else if (d.ywd.c == nw && !nextp) {
 				/* we're IN the week already and no
 				 * next/prev date is requested */
 				;
 			} else if (forw) {
-			next_year:
 				/* years don't wrap around,
 				 * dt_dadd_y() keeps the Jan-01 offset right */
 				d = dt_dadd_y(d, 1);
